@@ -130,6 +130,7 @@ def run_check(ctx, mod, replay):
     if driver_ok:
         mod.correspondence(ctx)      # appends to ctx.violations (concrete or not)
     # -- broken obligations: search for a concrete failing input
+    unexplained = []
     for b in broken:
         found = None
         try:
@@ -140,11 +141,19 @@ def run_check(ctx, mod, replay):
             ctx.notes.append("search error: %r" % e)
             log(traceback.format_exc())
         if found:
+            found.setdefault("replay", {})["broken_obligation"] = b
             ctx.violations.append(found)
         else:
-            ctx.violations.append({"key": "broken:%s:%s" % (b["kind"], b["name"]), "concrete": False,
-                                   "what": "%s %s no longer checks: %s" % (b["kind"], b["name"], b["detail"][:300]),
-                                   "replay": {"broken": b}})
+            unexplained.append(b)
+    if unexplained:
+        have_concrete = any(v.get("concrete") for v in ctx.violations)
+        names = ", ".join("%s %s" % (b["kind"], b["name"]) for b in unexplained)
+        if not have_concrete:
+            ctx.violations.append({"key": "broken:" + common.sha(names), "concrete": False,
+                                   "what": "no longer checks: %s (%s)" % (names, unexplained[0]["detail"][:300]),
+                                   "replay": {"broken": unexplained}})
+        else:
+            ctx.notes.append("also broken (explained by the concrete violation above): " + names)
     # -- known findings
     known = {f["key"]: f for f in common.load_findings() if f.get("property") == pid and f.get("status") == "open"}
     nviol = 0
